@@ -29,8 +29,13 @@ def expand_dfs(
     while len(stack) > 0:
         (node, successors) = stack.pop()
         if successors is None:
-            # Only allow successor computation if size limit hasn't been exceeded.
-            if (size_limit is not None) and (len(sd) >= size_limit):
+            # Only allow successor computation if size limit hasn't been exceeded
+            # (nodes that are already expanded cannot increase the size any further).
+            if (
+                (size_limit is not None)
+                and (len(sd) >= size_limit)
+                and not sd.node_data(node)["expanded"]
+            ):
                 # Size limit reached.
                 return False
 
